@@ -4,6 +4,7 @@ observation (workspace, links, not-found diagnostics, outline markers) after eve
 on one long-lived AnalysisHost over an in-memory file system and, for C07, also compares the full query set with a
 freshly started host."""
 import json
+import re
 import os
 import random
 import zlib
@@ -80,9 +81,16 @@ def compare(exp, got, texts):
         got_links = [(line_of(text, l[0]), l[2]) for l in g["links"]]
         if got_links != want_links:
             out.append(("links-differ", {"file": g["path"], "expected": want_links, "got": got_links}))
-        want_d = sorted([(i, "include file not found: %s.td" % e["incs"][i]) for i, t in enumerate(e["links"]) if t[0] == ""]
-                        + ([(len(e["incs"]) + 2, "class not found: U_" + s)] if e["faulty"] else []))
-        got_d = sorted((line_of(text, d[0]), d[2]) for d in g["diags"])
+        # (by what the message names, not by its wording: an include that is not found, an undefined class)
+        def what(m):
+            mm = re.search(r"\b(\w+)\.td\b", m)
+            if mm:
+                return "include-not-found:" + mm.group(1)
+            mm = re.search(r"\b(U_\w+)", m)
+            return "undefined-class:" + mm.group(1) if mm else "other:" + m
+        want_d = sorted([(i, "include-not-found:%s" % e["incs"][i]) for i, t in enumerate(e["links"]) if t[0] == ""]
+                        + ([(len(e["incs"]) + 2, "undefined-class:U_" + s)] if e["faulty"] else []))
+        got_d = sorted((line_of(text, d[0]), what(d[2])) for d in g["diags"])
         if got_d != want_d:
             kind = "not-found" if any("include" in m for _l, m in set(want_d) ^ set(got_d)) else "other"
             out.append(("diagnostics-differ %s" % kind, {"file": g["path"], "expected": want_d, "got": got_d}))
